@@ -126,6 +126,33 @@ def wiring_obligations(bay, comps):
             exp['flange'] = dict(mu=sp['mu'], a=bay.a, b=sp['bf'], m=sp['spec']['mf'], n=sp['spec']['nf'])
         if hasattr(s, 'mu'):
             obs.append(('stiffener-definition[%s.mu]' % tag, Sym.lift(s.mu), Sym.lift(sp['mu'])))
+        if kind == 'B1':
+            # section properties of the blade (rectangle bf x hf standing on the skin / pad-up): area, second moments about the
+            # two section axes, polar moment, centroid distance from the skin mid-surface, reduced axial stiffness of the laminate
+            bf_, hf_ = sp['bf'], sum(sp['fplyts'])
+            hb_ = sum(sp['bplyts']) if sp['bb'] is not None else Sym.lift(0)
+            hskin = (sum(s.panel1.plyts) + sum(s.panel2.plyts)) / 2
+            want = {'hf': hf_, 'Asf': bf_ * hf_, 'Iyy': hf_ * bf_ ** 3 / 12, 'Jxx': hf_ * bf_ ** 3 / 12 + bf_ * hf_ ** 3 / 12,
+                    'dbf': bf_ / 2 + hb_ + hskin / 2}
+            if sp['bb'] is not None:
+                want['Asb'] = sp['bb'] * hb_
+                want['As'] = sp['bb'] * hb_ + bf_ * hf_
+            else:
+                want['As'] = bf_ * hf_
+            plies = getattr(s.flam, 'plies', None)
+            if plies:
+                E1 = Sym.lift(0)
+                for ply in plies:
+                    q = ply.QL
+                    E1 = E1 + ply.t * (q[0, 0] - q[0, 1] * q[0, 1] / q[1, 1])
+                want['E1'] = E1
+                want['F1'] = bf_ ** 2 / 12 * E1
+            for nm, v in want.items():
+                got = getattr(s, nm, None)
+                if got is None:
+                    obs.append(('stiffener-section[%s.%s set]' % (tag, nm), Sym.lift(0), Sym.lift(1)))
+                else:
+                    obs.append(('stiffener-section[%s.%s]' % (tag, nm), Sym.lift(got), Sym.lift(v)))
         for part, want in exp.items():
             comp = getattr(s, part, None)
             if comp is None:
@@ -174,8 +201,12 @@ def build(cfg, values=None):
             if variant == 'bay-sum':
                 which = cfg['which']
                 bay.Nxx = ctx.V('Nxx')
-                for p in bay.panels:
+                for q_, p in enumerate(bay.panels):
                     p.Nxx, p.Nyy, p.Nxy = ctx.V('Nxx'), ctx.V('Nyy'), ctx.V('Nxy')
+                    if cfg.get('skin_loads') == 'shear-only' or (cfg.get('skin_loads') == 'mixed' and q_ == 0):
+                        p.Nxx, p.Nyy = None, None       # a strip that carries shear only
+                    if cfg.get('skin_loads') == 'mixed' and q_ == 1:
+                        p.Nxy, p.Nyy = None, None
                 for kind, s in comps:
                     if kind == 'B1':
                         s.Fx = ctx.V('Fx_%d' % id(s))
@@ -342,7 +373,11 @@ def build(cfg, values=None):
                 p = ctx.new_panel('plate', m, n, prefix='p%d_' % q)
                 lam = p._verif_lam
                 lam.A, lam.D = lam.ABD[0:3, 0:3], lam.ABD[3:6, 3:6]
-                p.lam = lam
+                if cfg.get('panel_offsets'):
+                    # laminates with an offset reference surface, built by the package when it first needs them
+                    p.offset = ctx.V('p%d_offset' % q)
+                else:
+                    p.lam = lam
                 p._rebuild()
                 p.a = panels[0].a if panels else p.a
                 p.Nxx, p.Nyy, p.Nxy = ctx.V('Nxx%d' % q), ctx.V('Nyy%d' % q), ctx.V('Nxy%d' % q)
@@ -431,6 +466,8 @@ def configs(tier, seed):
         if 'B1' not in name:
             out.append({'variant': 'bay-fields', 'm': 1, 'n': 2, 'stiffeners': st, 'group': 'bay-fields:%s' % name})
         out.append({'variant': 'bay-fext', 'm': 2, 'n': 1, 'stiffeners': st, 'group': 'bay-fext:%s' % name})
+    out.append({'variant': 'bay-sum', 'which': 'kG0', 'm': 2, 'n': 1, 'stiffeners': [B1()], 'skin_loads': 'shear-only', 'group': 'bay-sum:B1:kG0:skin-in-pure-shear', 'timeout_ms': 120000})
+    out.append({'variant': 'bay-sum', 'which': 'kG0', 'm': 1, 'n': 2, 'stiffeners': [B2(1, 1)], 'skin_loads': 'mixed', 'group': 'bay-sum:B2:kG0:strip-wise-different-loads', 'timeout_ms': 120000})
     out.append({'variant': 'blade2d-parts', 'm': 1, 'n': 2, 'stiffeners': [B2(2, 1, True)], 'group': 'bladestiff2d-k0-composition'})
     out.append({'variant': 'blade2d-parts', 'm': 2, 'n': 1, 'stiffeners': [B2(1, 2)], 'group': 'bladestiff2d-k0-composition'})
     out.append({'variant': 'tstiff-parts', 'm': 1, 'n': 2, 'stiffeners': [T(1, 2, 2, 1)], 'group': 'tstiff2d-k0-composition'})
@@ -444,6 +481,8 @@ def configs(tier, seed):
     out.append({'variant': 'assembly-sum', 'which': 'kT', 'history': ('k0', 'kG0', 'kM'), 'panels': [(1, 3), (1, 1)], 'm': 1, 'n': 1, 'group': 'assembly-sum:kT-after-k0-kG0-kM', 'timeout_ms': 120000})
     out.append({'variant': 'assembly-sum', 'which': 'fint', 'history': ('k0',), 'panels': [(1, 3), (1, 1)], 'm': 1, 'n': 1, 'group': 'assembly-sum:fint-after-k0', 'timeout_ms': 120000})
     out.append({'variant': 'assembly-sum', 'which': 'k0', 'history': ('k0_conn', 'k0'), 'panels': [(2, 1), (1, 2), (1, 1)], 'm': 2, 'n': 1, 'group': 'assembly-sum:k0-after-k0_conn-k0'})
+    out.append({'variant': 'assembly-sum', 'which': 'k0', 'history': ('k0_conn',), 'panel_offsets': True, 'panels': [(1, 4), (1, 2)], 'm': 1, 'n': 1, 'group': 'assembly-sum:k0-after-k0_conn:offset-laminates'})
+    out.append({'variant': 'assembly-sum', 'which': 'k0', 'panel_offsets': True, 'panels': [(1, 4), (1, 2)], 'm': 1, 'n': 1, 'group': 'assembly-sum:k0:offset-laminates'})
     out[0]['canary'] = True
     out[-1]['canary'] = True
     return out
